@@ -2,18 +2,32 @@
 
 PID = "C12"
 CLAIM = True
-MANIFEST_TEXT = ("Lean 4 theorems about a line-by-line transcription of readINITree, ParameterTree's operator[]/hasKey/sub, "
-                 "readOptions/readNamedOptions and Parser<T>: every document of the documented INI dialect (any mix of groups, dotted "
-                 "keys, blanks, comments, quoting, multi-line values) parses to exactly the assignments it denotes; groups = dotted "
-                 "keys; first-appearance order; duplicate rejected; overwrite flag; the parser terminates on all input; integer text "
-                 "round-trips and malformed/over-long text is a RangeError.  The model is run against the real code on generated "
-                 "documents/argument vectors/value strings each run, with independent reference oracles deciding the property.")
+MANIFEST_TEXT = ("Lean 4 theorems (20 obligations) about a line-by-line transcription of readINITree, ParameterTree's "
+                 "operator[]/hasKey/sub/get, readOptions/readNamedOptions and Parser<T>.  The documented INI dialect is formalised as "
+                 "an item grammar (blank, comment, [group] header, assignment with blanks, either quote, multi-line value, trailing "
+                 "comment) with an explicit lexical predicate; proved for ALL documents of the dialect, all trees, both flags: reading "
+                 "a document = applying the (full dotted key, value) assignments it denotes (parse_denotation); every hierarchy is "
+                 "recovered exactly - keys, values, key order - from every spelling of its entries (parse_render, + dotted and grouped "
+                 "renderings for every writable hierarchy); groups = dotted keys (documents and tree access); keys in order of first "
+                 "appearance at every node; duplicate key in one source never accepted (ParserError); overwrite flag (general and "
+                 "two-source form with a static prefix-freeness hypothesis); the parser terminates on every byte string; "
+                 "readOptions/readNamedOptions map pairs/positionals/named parameters as documented and report missing, unknown, "
+                 "superfluous, value-less, already-specified, help; get<integer> accepts exactly blanks[sign]digits blanks in range and "
+                 "returns that value (round trip with the canonical text for every 16/32/64-bit type), fixed-size ranges accept exactly n "
+                 "literals, default only when the key is absent, bool words.  Each run executes the model against the real code "
+                 "(12k cases quick / 1.2M thorough: rendered documents, raw documents, argument vectors, value strings for 40 target "
+                 "types under two global locales, tree queries) with independent reference oracles deciding the property, plus a "
+                 "hostile byte stream under ASan/UBSan.")
 MANIFEST_NOTE = ("Trusted: Lean kernel (+propext/Classical.choice/Quot.sound), the hand-written model's fidelity (differential "
-                 "execution only), the harness' reference parser/recognisers, g++/libstdc++/ASan/UBSan.  operator>> is libstdc++'s: "
-                 "its integer and floating lexers are modelled (floating values compared bit-exactly through a correctly rounded "
-                 "conversion in the model), no theorem is stated about floating point.  Hostile byte streams: only 'no crash, no "
-                 "hang, Dune exception or success' is checked (no model comparison).  Not claimed: '#' inside quoted values, a "
-                 "negative literal for an unsigned target, keys that are both value and group.")
+                 "execution only; no translator), the harness' reference tree / strict dialect recogniser / numeric recognisers, "
+                 "g++/libstdc++/glibc, ASan/UBSan.  operator>> is libstdc++'s: its classic-locale integer and floating lexers are "
+                 "modelled; floating values are compared bit-exactly through a correctly-rounded conversion in the model but no theorem "
+                 "is stated about floating point.  Hostile/out-of-dialect byte streams: only 'no crash, no hang (60 s alarm), success or "
+                 "Dune exception' is checked, the model is not compared there (it is nevertheless total: parse_total).  Not claimed: '#' "
+                 "inside quoted values, a quote character inside a value quoted with the same character, a negative literal for an "
+                 "unsigned target (answer masked as 'noclaim'), names that are both value and group (modelled, oracle abstains), "
+                 "parse_render for overwrite=false.  The model describes the code with fixes/C12_parserange.patch applied "
+                 "(fixes/C12_emptyquote.patch is behaviour-neutral under libstdc++).")
 TECHNIQUE = "Lean 4 proof over a transcribed parser/tree/lexer model + differential correspondence with independent reference oracles"
 TRANSLATORS = []
 HARNESS = dict(
@@ -40,7 +54,7 @@ TRUSTED = ["g++/libstdc++, ASan/UBSan", "harness/cxx_c12.cc (reference tree, str
 
 
 def batches(tier, seed):
-    n = 12000 if tier == "quick" else 400000
+    n = 12000 if tier == "quick" else 1200000
     parts = 4 if tier == "quick" else 16
     return [dict(args=["--seed", str(seed * 1000 + i), "--cases", str(n // parts), "--tier", tier], tag="g%d" % i,
                  timeout=(600 if tier == "quick" else 6000)) for i in range(parts)]
